@@ -25,13 +25,13 @@ mcInitialUnitsT == {[a \in mcFunded \cup mcFreshT \cup mcKeyless |-> CASE a = "s
 VARIABLE hist
 mcvars == <<vars, hist>>
 
-CONSTANT Record, Depth, Weight
+CONSTANT Record, Depth, Weight, SimOps   \* SimOps: the alphabet -simulate draws from
 
 mcInit == Init /\ hist = <<>>
 (* -simulate picks uniformly among the generated successors, and most operations change nothing (they are refused);
    state-changing steps are generated Weight times so that random behaviours get somewhere *)
 mcNext == /\ Len(hist) < Depth
-          /\ \E w \in 1..Weight : \E o \in Ops :
+          /\ \E w \in 1..Weight : \E o \in SimOps :
                 /\ Step(o)
                 /\ IF w = 1 THEN TRUE
                    ELSE /\ vars' # vars
@@ -39,10 +39,10 @@ mcNext == /\ Len(hist) < Depth
                 /\ hist' = IF Record THEN Append(hist, o) ELSE hist
 (* the alphabet of the exhaustive run: all of Ops (quick), or - with the larger universe of the thorough run - the
    core alphabet plus one representative of the classes that differ only in bytes the model does not look at *)
-IsExtra(o) == IF o.op = "Submit" THEN (o.tgt \in Keyless \/ o.sig \in NewForged) ELSE o.to \in Keyless
+IsExtra(o) == IF o.op = "Submit" THEN (o.tgt \in Keyless \/ o.sig \in NewForged \/ (o.sp # "lower" /\ o.tgt # "t0")) ELSE o.to \in Keyless
 ExtraOps   == {o \in Ops : IsExtra(o)}
 CoreOps    == Ops \ ExtraOps
-ReducedOps == CoreOps \cup {o \in ExtraOps : IF o.op = "Submit" THEN (o.sig \in {"zero65", "bysub"} /\ o.tgt \in {"z0", "t0"}) ELSE (o.to = "z0" /\ o.kind = "vest1")}
+ReducedOps == CoreOps \cup {o \in ExtraOps : IF o.op = "Submit" THEN (o.sig \in {"zero65", "bysub"} /\ o.tgt \in {"z0", "t0"} /\ o.sp = "lower") ELSE (o.to = "z0" /\ o.kind = "vest1")}
 CONSTANT McOps
 mcNextFree == \E o \in McOps : Step(o) /\ UNCHANGED hist
 mcSpec    == mcInit /\ [][mcNextFree]_mcvars
@@ -63,14 +63,18 @@ W_Vesting23     == ~(\E a, b \in Addr : kind[a] = "vest2" /\ kind[b] = "vest3")
 W_Exhausted     == ~(\A a \in Addr : q[a] = 0)
 
 (* B1 behaviours: prefix ; op *)
-Sub(s, t, k) == [op |-> "Submit", sub |-> s, tgt |-> t, sig |-> k]
+Sub(s, t, k) == [op |-> "Submit", sub |-> s, tgt |-> t, sig |-> k, sp |-> "lower"]
+SubSp(s, t, k, sp) == [op |-> "Submit", sub |-> s, tgt |-> t, sig |-> k, sp |-> sp]
 Cre(k, t, r) == [op |-> "Create", kind |-> k, to |-> t, route |-> r]
 B1Prefixes == << <<>>,
                <<Sub("s0", "t0", "valid")>>,
                <<Sub("s0", "t0", "valid2"), Cre("vest1", "t0", "top")>>,
                <<Sub("s1", "s2", "valid"), Sub("s0", "s1", "valid")>>,
                (* an over-long account containing t0 was submitted: t0 must still be unproven, provable, not vestable *)
-               <<Sub("s0", "t0", "L_ts_s")>> >>
+               <<Sub("s0", "t0", "L_ts_s")>>,
+               (* t0 proven through a submission that spelled the account in upper case: finality and the vesting guard
+                  must hold exactly as after the lower-case one (second prefix) *)
+               <<SubSp("s0", "t0", "valid", "upper")>> >>
 (* the core alphabet after every prefix; the extra classes (keyless targets, degenerate signatures) from the initial
    state only - their admitted outcome does not depend on the state *)
 B1 == LET ops == SetToSeq(CoreOps)
